@@ -64,6 +64,7 @@ type Obligation struct {
 }
 
 type VCGen struct {
+	beforeApplied map[string]bool // "name.k" of the before clauses that attached to at least one site
 	eng      *Engine
 	fn       *ssa.Function
 	fc       *FuncContract
